@@ -308,6 +308,18 @@ def execute(run, cases, tag="b0"):
                 continue
             if v != "accepted":
                 failed = "rustc %s: %s" % (v.get("code"), v.get("message"))
+        if not failed and c["options"].get("extern_enums") and (g.get("inspect") or {}).get("items"):
+            # "imported", not "defined": an enum the options declare external must come from the consumer. A module that defines
+            # it after all still compiles on its own (the local item shadows the glob import) - and the consumer's type is dead
+            from .. import names as _n
+            rust = (c["options"].get("normalization") or "").lower() == "rust"
+            defined = {it["name"] for it in g["inspect"]["items"] if it["kind"] == "enum" and it.get("path")}
+            for e in c["options"]["extern_enums"]:
+                if (_n.camel(e) if rust else e) in defined:
+                    failed = "the module defines enum %s although extern_enums names it: the consumer's type is shadowed" % (_n.camel(e) if rust else e)
+                    run.count("extern-enum-defined-anyway")
+                    break
+            run.count("extern-enum-cases-inspected")
         if failed:
             run.violation(c, "[%s] %s" % (c["form"], failed))
         else:
@@ -338,6 +350,12 @@ def main(run):
         if bi == 0:
             cs += keyword_sweep_cases(run.rng)
             cs += variant_name_sweep_cases(run.rng)
+            # C12's fragment-recursion patterns (every third one) as supported inputs of this property: they must type-check
+            from .c12 import fragment_patterns
+            for fc in fragment_patterns(run.sub_rng("c12-patterns"))[::3]:
+                fc["form"] = "library"
+                fc["options"]["mode"] = "cli"
+                cs.append(fc)
             for w in hazards.cases_for(run, "C02"):
                 w["form"] = w.get("form") or "library"
                 cs.append(w)
